@@ -392,7 +392,9 @@ def after_failed_parent(rec, label, design):
     subs = [m["name"] for m in design["modules"] if m["name"] != design["top"]]
     if not subs:
         return
-    for fault in ("width", "missing-port", "array", "foreign-signal", "reconnect-width", "disconnect", "reconnect-after-success", "disconnect-after-success"):
+    for fault in ("width", "missing-port", "array", "foreign-signal", "reconnect-width", "disconnect", "reconnect-after-success", "disconnect-after-success",
+                  "reconnect-by-replace-width", "reconnect-by-setattr-width", "reconnect-by-call-width",
+                  "reconnect-by-replace-after-success", "reconnect-by-setattr-after-success", "reconnect-by-call-after-success"):
         try:
             built = build.build(copy.deepcopy(design))
         except Exception:
@@ -447,7 +449,15 @@ def after_failed_parent(rec, label, design):
                 port = next(iter(inst.conns))
                 if fault.startswith("reconnect"):
                     w = getattr(inst.conns[port], "width", 1) or 1
-                    inst.connect(port, other.add(h.Signal(width=w + 1), name="fw"))
+                    fw = other.add(h.Signal(width=w + 1), name="fw")
+                    if "-by-replace-" in fault:
+                        inst.replace(port, fw)
+                    elif "-by-setattr-" in fault:
+                        setattr(inst, port, fw)
+                    elif "-by-call-" in fault:
+                        inst(**{port: fw})
+                    else:
+                        inst.connect(port, fw)
                 else:
                     inst.disconnect(port)
         except Exception:
